@@ -39,20 +39,19 @@ def cliExpected (fn : String) (args : List String) : Option String :=
         let es := entries db rs
         some (unwords ["0", rep, "1", hxCps (writeLines (dump false es)), hxCps (writeLines (dump true es))])
   | "runraw", [db, csv, keep, skip, src] =>
-    -- the source as bytes (`b<hex>`): lines that are not valid UTF-8 stop the run with an I/O error
+    -- the source as bytes (`b<hex>`): a line that is not valid UTF-8 is reported like any other malformed line
+    -- (last field: `io` = the tool stopped with the I/O error of `BufRead::lines`, which the fixed code never does)
     match dbOf db with
     | none => none
     | some db =>
       let f := flagsOf csv keep skip
-      match compileRaw f (readRawLines (unhex src)) with
-      | .ioError _ => some (unwords ["1", "-", "0", "-", "-", "io"])
-      | .ran res =>
-        let rep := commaNats (res.reported.map (·.1))
-        match res.inserted with
-        | none => some (unwords ["1", rep, "0", "-", "-", "ok"])
-        | some rs =>
-          let es := entries db rs
-          some (unwords ["0", rep, "1", hxCps (writeLines (dump false es)), hxCps (writeLines (dump true es)), "ok"])
+      let res := compileRaw f (readRawLines (unhex src))
+      let rep := commaNats (res.reported.map (·.1))
+      match res.inserted with
+      | none => some (unwords ["1", rep, "0", "-", "-", "ok"])
+      | some rs =>
+        let es := entries db rs
+        some (unwords ["0", rep, "1", hxCps (writeLines (dump false es)), hxCps (writeLines (dump true es)), "ok"])
   | "lookup", [db, csv, keep, skip, src, key] =>
     match dbOf db with
     | none => none
